@@ -43,7 +43,7 @@ def rand_string(rng):
 
 def generate(res):
     src = C.read(os.path.join(C.REPO, "src", "braille.rs"))
-    t = G.parse_source(src)
+    t = C.translate(res, "c20", "highlight cell sets of braille.rs", lambda: G.parse_source(src))
     C.write_if_changed(os.path.join(C.GEN, "HighlightTabs.v"), G.render(t))
     ok, log = C.build_harness()
     if not ok:
